@@ -185,6 +185,15 @@ def gen_matrix_graph(rng, cap=1500):
                             M[a][b] = rng.randrange(mod)
                         mats.append(M)
             central = [rng.randrange(mod) for _ in range(n * m)]
+            if rng.random() < 0.25:
+                # a PARTIALLY inverse-closed set: a shear, its inverse, and another shear whose inverse is missing (the graph is directed)
+                n = 2
+                a_ = rng.randrange(1, mod)
+                mats = [[[1, a_], [0, 1]], [[1, (mod - a_) % mod], [0, 1]], [[1, 0], [rng.randrange(1, mod), 1]]]
+                if rng.random() < 0.5:
+                    mats = [mats[2], mats[0], mats[1]]
+                m = rng.choice([1, 2])
+                central = [0, 1] if m == 1 else [1, 0, 0, 1]
         elif r < 0.82:
             # finite-order integer matrices with entries -1, 0, 1 under moduli at every threshold where a float / narrow-integer shortcut
             # stops being exact; residues m-1, m-2 in generators AND states, so that sums of several near-m^2 products occur
